@@ -17,6 +17,7 @@ import (
 	"strconv"
 	"strings"
 	"sync"
+	"sync/atomic"
 
 	apifu "github.com/ccbrown/api-fu"
 	"github.com/ccbrown/api-fu/graphql"
@@ -170,22 +171,42 @@ func literalToGo(v ast.Value) interface{} {
 	return nil
 }
 
-func newWorld(flags Flags) (*world, error) {
-	w := &world{flags: flags, ws: map[string]*wsClient{}}
-	cfg := &apifu.Config{}
-	lg := logrus.New()
-	lg.SetOutput(discard{})
-	cfg.Logger = lg
+// defs is one set of type and field definition objects. Two APIs may be built from the *same* set
+// (one through the preprocess / clone path, one without): the resolvers therefore find the world
+// they are running for in the request context instead of closing over it.
+type namedField struct {
+	name string
+	def  *graphql.FieldDefinition
+}
 
+type defs struct {
+	query, mutation []namedField
+	named           []graphql.NamedType
+}
+
+const worldKey ctxKey = "c17-world"
+
+var orphanLogs int64 // resolver calls whose context did not carry a world (must stay 0)
+
+func logCtx(ctx context.Context, s string) {
+	if w, ok := ctx.Value(worldKey).(*world); ok && w != nil {
+		w.logCall(s)
+		return
+	}
+	atomic.AddInt64(&orphanLogs, 1)
+}
+
+func newDefs() *defs {
+	d := &defs{}
 	echo := func(name, arg string) func(graphql.FieldContext) (interface{}, error) {
 		return func(ctx graphql.FieldContext) (interface{}, error) {
-			w.logCall(name + argsDump(ctx.Arguments))
+			logCtx(ctx.Context, name+argsDump(ctx.Arguments))
 			return ctx.Arguments[arg], nil
 		}
 	}
 	dump := func(name string) func(graphql.FieldContext) (interface{}, error) {
 		return func(ctx graphql.FieldContext) (interface{}, error) {
-			w.logCall(name + argsDump(ctx.Arguments))
+			logCtx(ctx.Context, name+argsDump(ctx.Arguments))
 			return argsDump(ctx.Arguments), nil
 		}
 	}
@@ -231,20 +252,20 @@ func newWorld(flags Flags) (*world, error) {
 			return ctx.Object.(*thing).ID, nil
 		}},
 		"name": {Type: graphql.StringType, Resolve: func(ctx graphql.FieldContext) (interface{}, error) {
-			w.logCall("Thing.name")
+			logCtx(ctx.Context, "Thing.name")
 			return ctx.Object.(*thing).Name, nil
 		}},
 		"n": {Type: graphql.IntType, Resolve: func(ctx graphql.FieldContext) (interface{}, error) {
 			return ctx.Object.(*thing).N, nil
 		}},
 		"boom": {Type: graphql.StringType, Resolve: func(ctx graphql.FieldContext) (interface{}, error) {
-			w.logCall("Thing.boom")
+			logCtx(ctx.Context, "Thing.boom")
 			return nil, fmt.Errorf("boom %v", ctx.Object.(*thing).ID)
 		}},
 		"must": {Type: graphql.NewNonNullType(graphql.StringType),
 			Arguments: map[string]*graphql.InputValueDefinition{"ok": {Type: graphql.BooleanType, DefaultValue: true}},
 			Resolve: func(ctx graphql.FieldContext) (interface{}, error) {
-				w.logCall("Thing.must" + argsDump(ctx.Arguments))
+				logCtx(ctx.Context, "Thing.must"+argsDump(ctx.Arguments))
 				if ok, _ := ctx.Arguments["ok"].(bool); ok {
 					return "must", nil
 				}
@@ -258,7 +279,7 @@ func newWorld(flags Flags) (*world, error) {
 				return float64(ctx.Object.(*thing).N) * by, nil
 			}},
 		"secret": {Type: graphql.StringType, RequiredFeatures: graphql.NewFeatureSet("featA"), Resolve: func(ctx graphql.FieldContext) (interface{}, error) {
-			w.logCall("Thing.secret")
+			logCtx(ctx.Context, "Thing.secret")
 			return "s3cret", nil
 		}},
 	}
@@ -275,7 +296,7 @@ func newWorld(flags Flags) (*world, error) {
 	}
 	unionType := &graphql.UnionType{Name: "ThingOrOther", MemberTypes: []*graphql.ObjectType{thingType, otherType}}
 
-	q := func(name string, def *graphql.FieldDefinition) { cfg.AddQueryField(name, def) }
+	q := func(name string, def *graphql.FieldDefinition) { d.query = append(d.query, namedField{name, def}) }
 	args := func(name string, t graphql.Type) map[string]*graphql.InputValueDefinition {
 		return map[string]*graphql.InputValueDefinition{name: {Type: t}}
 	}
@@ -310,7 +331,7 @@ func newWorld(flags Flags) (*world, error) {
 		"deep":  {Type: graphql.NewListType(graphql.NewNonNullType(graphql.NewListType(colorType)))},
 	}
 	mkThings := func(ctx graphql.FieldContext) (interface{}, error) {
-		w.logCall("mkThings" + argsDump(ctx.Arguments))
+		logCtx(ctx.Context, "mkThings"+argsDump(ctx.Arguments))
 		out := []interface{}{&thing{ID: "i0", Name: "item 0", N: 0}}
 		if b, _ := ctx.Arguments["withNull"].(bool); b {
 			out = append(out, nil)
@@ -346,18 +367,18 @@ func newWorld(flags Flags) (*world, error) {
 	q("echoBox", &graphql.FieldDefinition{Type: graphql.StringType, Arguments: args("box", boxType), Resolve: dump("echoBox")})
 	q("gatedB", &graphql.FieldDefinition{Type: graphql.StringType, RequiredFeatures: graphql.NewFeatureSet("featB"),
 		Resolve: func(ctx graphql.FieldContext) (interface{}, error) {
-			w.logCall("gatedB")
+			logCtx(ctx.Context, "gatedB")
 			return "behind featB", nil
 		}})
 	q("gatedAB", &graphql.FieldDefinition{Type: graphql.IntType, RequiredFeatures: graphql.NewFeatureSet("featA", "featB"), Cost: graphql.FieldResolverCost(4),
 		Arguments: map[string]*graphql.InputValueDefinition{"x": {Type: graphql.IntType, DefaultValue: 1}},
 		Resolve: func(ctx graphql.FieldContext) (interface{}, error) {
-			w.logCall("gatedAB" + argsDump(ctx.Arguments))
+			logCtx(ctx.Context, "gatedAB"+argsDump(ctx.Arguments))
 			return ctx.Arguments["x"], nil
 		}})
 	q("gated", &graphql.FieldDefinition{Type: graphql.StringType, RequiredFeatures: graphql.NewFeatureSet("featA"),
 		Resolve: func(ctx graphql.FieldContext) (interface{}, error) {
-			w.logCall("gated")
+			logCtx(ctx.Context, "gated")
 			return "behind featA", nil
 		}})
 	q("featuresSeen", &graphql.FieldDefinition{Type: graphql.StringType,
@@ -371,7 +392,7 @@ func newWorld(flags Flags) (*world, error) {
 		}})
 	q("fail", &graphql.FieldDefinition{Type: graphql.StringType, Arguments: args("msg", graphql.StringType),
 		Resolve: func(ctx graphql.FieldContext) (interface{}, error) {
-			w.logCall("fail" + argsDump(ctx.Arguments))
+			logCtx(ctx.Context, "fail"+argsDump(ctx.Arguments))
 			return nil, fmt.Errorf("failed: %v", ctx.Arguments["msg"])
 		}})
 	q("requestCost", &graphql.FieldDefinition{Type: graphql.IntType, Cost: graphql.FieldResolverCost(0),
@@ -388,7 +409,7 @@ func newWorld(flags Flags) (*world, error) {
 			return graphql.FieldCost{Resolver: 1, Multiplier: n}
 		},
 		Resolve: func(ctx graphql.FieldContext) (interface{}, error) {
-			w.logCall("things" + argsDump(ctx.Arguments))
+			logCtx(ctx.Context, "things"+argsDump(ctx.Arguments))
 			n, _ := ctx.Arguments["n"].(int)
 			if n < 0 || n > 5 {
 				return nil, fmt.Errorf("n out of range: %v", n)
@@ -413,18 +434,41 @@ func newWorld(flags Flags) (*world, error) {
 			}
 			return &thing{ID: "t3", Name: "three", N: 3}, nil
 		}})
-	cfg.AddMutation("bump", &graphql.FieldDefinition{Type: graphql.IntType,
+	d.mutation = append(d.mutation, namedField{"bump", &graphql.FieldDefinition{Type: graphql.IntType,
 		Arguments: map[string]*graphql.InputValueDefinition{"by": {Type: graphql.NewNonNullType(graphql.IntType)}},
 		Cost:      graphql.FieldResolverCost(5),
 		Resolve: func(ctx graphql.FieldContext) (interface{}, error) {
-			w.logCall("bump" + argsDump(ctx.Arguments))
+			logCtx(ctx.Context, "bump"+argsDump(ctx.Arguments))
 			by, _ := ctx.Arguments["by"].(int)
 			return by + 1, nil
-		}})
-	cfg.AddMutation("note", &graphql.FieldDefinition{Type: graphql.StringType,
+		}}})
+	d.mutation = append(d.mutation, namedField{"note", &graphql.FieldDefinition{Type: graphql.StringType,
 		Arguments: map[string]*graphql.InputValueDefinition{"s": {Type: graphql.StringType, DefaultValue: "none"}, "in": {Type: inType}},
-		Resolve:   dump("note")})
-	cfg.AddNamedType(otherType)
+		Resolve:   dump("note")}})
+	d.named = append(d.named, otherType)
+	return d
+}
+
+// newWorld builds an API (from the shared definitions d when given, else from fresh ones) and its
+// loopback server.
+func newWorld(flags Flags, d *defs) (*world, error) {
+	w := &world{flags: flags, ws: map[string]*wsClient{}}
+	cfg := &apifu.Config{}
+	lg := logrus.New()
+	lg.SetOutput(discard{})
+	cfg.Logger = lg
+	if d == nil {
+		d = newDefs()
+	}
+	for _, f := range d.query {
+		cfg.AddQueryField(f.name, f.def)
+	}
+	for _, f := range d.mutation {
+		cfg.AddMutation(f.name, f.def)
+	}
+	for _, t := range d.named {
+		cfg.AddNamedType(t)
+	}
 
 	if flags.Hook {
 		// identity-like: documentation only (what the hook is documented for); forces Clone()
@@ -448,7 +492,7 @@ func newWorld(flags Flags) (*world, error) {
 	mux := http.NewServeMux()
 	withFeat := func(f func(http.ResponseWriter, *http.Request)) http.HandlerFunc {
 		return func(rw http.ResponseWriter, r *http.Request) {
-			f(rw, r.WithContext(baseContext(r.Context(), r.Header.Get(featHeader))))
+			f(rw, r.WithContext(w.baseContext(r.Context(), r.Header.Get(featHeader))))
 		}
 	}
 	mux.HandleFunc("/graphql", withFeat(api.ServeGraphQL))
@@ -482,8 +526,8 @@ func parseFeats(s string) graphql.FeatureSet {
 	return graphql.NewFeatureSet(fs...)
 }
 
-func baseContext(ctx context.Context, feats string) context.Context {
-	return context.WithValue(ctx, featKey, parseFeats(feats))
+func (w *world) baseContext(ctx context.Context, feats string) context.Context {
+	return context.WithValue(context.WithValue(ctx, worldKey, w), featKey, parseFeats(feats))
 }
 
 func featuresFromContext(ctx context.Context) graphql.FeatureSet {
